@@ -29,6 +29,7 @@ class C03:
     def __init__(self, ctx: Ctx, rep: Report):
         self.ctx, self.rep = ctx, rep
         self.eff = Effects(ctx)
+        self.sa = SideAnalysis(ctx)
 
     def r1_r2(self):
         rep, ctx, p = self.rep, self.ctx, self.ctx.prog
@@ -45,7 +46,7 @@ class C03:
         for spec, api, needs in specs:
             f = p.func(spec)
             g = ctx.cfg(f)
-            chn, syn = side_names(ctx, f)
+            chn, syn = side_names(ctx, f, self.sa)
             if chn is None or syn is None:
                 raise AnalysisError("%s: cannot identify the changed / synced side names" % spec)
             needs = [n_.replace("[synced]", "[%s]" % syn).replace("[changed]", "[%s]" % chn) for n_ in needs]
@@ -120,20 +121,21 @@ class C03:
         rep, ctx = self.rep, self.ctx
         rep.rule("C03.R3", "in every function that takes (changed, synced), mutating provider calls are issued on the synced side, never on the "
                  "side where the change originated", expect_min=6)
-        sa_ = SideAnalysis(ctx)
+        sa_ = self.sa
         n = 0
+        subtree = set(ctx.reach_funcs([ctx.prog.func("SyncManager.embrace_change")], over=False))
         for f in ctx.prog.functions.values():
-            if f.module.name not in ENGINE_MODULES:
+            if f.module.name not in ENGINE_MODULES or f.qname not in subtree:
                 continue
-            chn, syn = side_names(ctx, f)
+            chn, syn = side_names(ctx, f, self.sa)
             if chn is None or syn is None:
                 continue
             for c in self.eff.provider_mutations(f):
                 ps = sa_.provider_side(f, c.func.value)
-                if ps is None or canon(ps)[0] != "changed":
+                if ps is None or canon(ps)[0] != chn:
                     continue
                 n += 1
-                rep.check("C03.R3", stmt_key(f, c), ctx.line(f, c), canon(ps) == ("changed", True), "on other(changed)",
+                rep.check("C03.R3", stmt_key(f, c), ctx.line(f, c), canon(ps) == (chn, True), "on other(%s)" % chn,
                           "`%s` mutates the provider of the side where the change originated" % ast.unparse(c)[:60], func=f.qname)
         if n < 6:
             raise AnalysisError("only %d side-decided mutating calls in (changed, synced) functions, expected >= 6" % n)
